@@ -2,8 +2,8 @@
 
 PROP = dict(
     level="proof",
-    lean_modules=['PopsModel.Props.C09'],
-    theorems=['Pops.C09_order', 'Pops.C09_iff', 'Pops.C09_index', 'Pops.C09_frame_disabled', 'Pops.C09_spread_block'],
+    lean_modules=['PopsModel.Props.C09', 'PopsModel.Props.C01Step'],
+    theorems=['Pops.C09_order', 'Pops.C09_iff', 'Pops.C09_index', 'Pops.C09_frame_disabled', 'Pops.C09_spread_block', 'Pops.C09_compose', 'Pops.C09_frame_inputs', 'Pops.C09_measurements_pure'],
     commands=['hp.plan', 'hp.after', 'hp.cfg', 'hp.uniforms', 'cfgsched'],
     runs={
         "quick": [('h_host', 'pool', 0, 1500), ('h_model', 'model', 0, 400), ('h_date', 'config', 0, 600)],
@@ -24,3 +24,12 @@ ENGINES = [
     {"name": "h_host", "path": "harness/h_host.cpp", "serves_properties": [], "kind_free_text": "C++ correspondence harness: random operation sequences on a real HostPool through pool methods, action and treatment classes; every raster printed after each operation"},
     {"name": "h_model", "path": "harness/h_model.cpp", "serves_properties": [], "kind_free_text": "C++ correspondence harness: Model::run_step with random configurations and calendars, injected scripted kernel, scripted uniforms, state after every action through the POPS_CORE_VERIF hook"},
 ]
+
+# --- pops::Simulation (simulation.hpp, anchor file of C09): the deprecated wrapper is driven method by
+# --- method by harness/h_sim.cpp; it prints the protocol lines of the wrapped actions, and a
+# --- `hp.state` / `hp.after simulation_wrapper_differs` pair when a direct run of the wrapped action differs.
+PROP["runs"]["quick"].append(('h_sim', 'sim', 0, 600))
+PROP["runs"]["thorough"].append(('h_sim', 'sim', 0, 60000))
+PROP["rule"] += "; case (sim) = one random landscape (same 7 shapes, SI/SEI, latency 0..3, 1..4 mortality cohorts) with 5-14 calls of public pops::Simulation methods (remove, remove_percentage, mortality, movement with a scheduled movement list, generate + disperse / disperse_and_infect in all instantiable overloads with an injected logging kernel and scripted establishment uniforms, move_overpopulated_pests with the deterministic neighbour kernel, optionally activate_soils; with and without set_environment), non-trivial = at least 3 different method kinds on a landscape with a suitable cell"
+PROP["explanation"] += " The deprecated wrapper pops::Simulation is inside the same correspondence: each of its public methods is called on random landscapes and must produce the line (state, pest rasters, cursor) that the wrapped action produces, checked against the same L1 model and predicates; in addition every call is repeated with the wrapped action class on a full HostPool over an identical copy with an identical provider, and any difference of the host rasters or suitable cells is reported as PROPFAIL C09 simulation_wrapper_differs."
+ENGINES.append({"name": "h_sim", "path": "harness/h_sim.cpp", "serves_properties": [], "kind_free_text": "C++ correspondence harness: public methods of the deprecated pops::Simulation wrapper on random landscapes, protocol lines of the wrapped actions (checked by the host-pool driver engine) plus a differential run of the wrapped action classes on an identical copy"})
